@@ -395,6 +395,25 @@ func ruleSibHoles(c *Ctx, r *R) {
 				}
 			}
 		}
+		// an element looked up with [[GetOwnProperty]] (computed key) instead: inherited elements are invisible
+		nOwn := 0
+		for _, b := range fn.Blocks {
+			for _, ins := range b.Instrs {
+				call, ok := ins.(*ssa.Call)
+				if !ok {
+					continue
+				}
+				callee := call.Call.StaticCallee()
+				if callee == nil || callee.Name() != "getOwnProperty" || len(call.Call.Args) != 2 || typeStr(call.Call.Args[0].Type()) != "*object" {
+					continue
+				}
+				if _, isConst := call.Call.Args[1].(*ssa.Const); isConst {
+					continue
+				}
+				nOwn++
+				r.bad(fmt.Sprintf("%s:getOwnProperty#%d", ssaFuncName(fn), nOwn), c.Pos(instrPos(ins)), fmt.Sprintf("%s (Array.prototype.%s) looks an element up with [[GetOwnProperty]]: the ES5 §15.4.4 algorithms test [[HasProperty]] and read with [[Get]], which also see an element inherited from the prototype chain (`Array.prototype[1] = 'p'; [0,,2].concat()` has an own element 1)", ssaFuncName(fn), work[fn]))
+			}
+		}
 		for i, g := range gets {
 			ok := false
 			for _, h := range has {
